@@ -10,7 +10,7 @@ STAGE = ("3: vm_refines_eval proved for text / emit / set (incl. unpacking) / se
 META = {
     "technique": "Lean 4: reference interpreter of the core fragment with kernel-checked scoping / loop-variable / for-else laws; model of the code generator (back-patched absolute jumps) and of the VM with a kernel-checked refinement theorem for a fragment; ties: typed random programs -> real parser (AST dumped and compared) -> (a) Template::render vs. the interpreter (oracle, delta-debugging shrinker), (b) model code generator vs. the real instruction stream instruction by instruction, (c) model VM vs. engine and vs. the interpreter; tables regenerated from source",
     "category": "proof",
-    "text": "MJ/Model/Eval.lean is the documented semantics of the core fragment (expressions, if/elif/else, for/else/filter/unpacking/loop, set, set-block, with, filter-block, macros with defaults and keyword arguments, call blocks, break/continue) as a structurally recursive interpreter that shares nothing with the compiler and VM. Kernel-checked: assignments inside for/with/macro/call-block bodies leave every enclosing scope unchanged, assignments at template level and in if-branches persist, the loop object of iteration i is <i, len, xs[i-1]?, xs[i+1]?> for every list, the else branch runs iff the filtered sequence is empty; constant folding is sound; the back-patching code generator model equals a structured generator with resolved targets; vm_refines_eval: the model VM on the generated code renders what the interpreter renders, for templates of text / emit / set (with unpacking) / set-block / filter-block / if / with / for-else with loop filter, break and continue, macro declarations with closures and parameter defaults at any depth, macro calls with positional and keyword arguments, call blocks and caller, over expressions with short-circuit and/or, if-expressions, filters, tests, attribute and item access, list and map literals (outside: " + EXCLUDED + "). The engine is tied to the models by rendering generated programs with the real engine (real parser in the loop), by comparing the real instruction streams with the model generator's, and by running the model VM. Argument binding: MJ.Eval.bindArgs / slotOf are Macro::prepare_args and the default rule as functions (parameters, positional values, keyword values -> value of every parameter | TooManyArguments); kernel-checked: an explicitly passed value (none included) is bound as it is, the default is used and evaluated iff the parameter is bound to undefined, one more positional value = the same value by keyword for the next free parameter, every keyword is consumed by a parameter that is not filled by position or is an error, the error cases exactly, and the model VM's prepareArgs is this binder; the engine's binder is compared with it on an exhaustive box (incl. splats and calls from Rust).",
+    "text": "MJ/Model/Eval.lean is the documented semantics of the core fragment (expressions, if/elif/else, for/else/filter/unpacking/loop, set, set-block, with, filter-block, macros with defaults and keyword arguments, call blocks, break/continue) as a structurally recursive interpreter that shares nothing with the compiler and VM. Kernel-checked: assignments inside for/with/macro/call-block bodies leave every enclosing scope unchanged, assignments at template level and in if-branches persist, the loop object of iteration i is <i, len, xs[i-1]?, xs[i+1]?> for every list, the else branch runs iff the filtered sequence is empty; constant folding is sound; the back-patching code generator model equals a structured generator with resolved targets; vm_refines_eval: the model VM on the generated code renders what the interpreter renders, for templates of text / emit / set (with unpacking) / set-block / filter-block / if / with / for-else with loop filter, break and continue, macro declarations with closures and parameter defaults at any depth, macro calls with positional and keyword arguments, call blocks and caller, over expressions with short-circuit and/or, if-expressions, filters, tests, attribute and item access, list and map literals (outside: " + EXCLUDED + "). The engine is tied to the models by rendering generated programs with the real engine (real parser in the loop), by comparing the real instruction streams with the model generator's, and by running the model VM. Argument binding: MJ.Eval.bindArgs / slotOf are Macro::prepare_args and the default rule as functions (parameters, positional values, keyword values -> value of every parameter | TooManyArguments); kernel-checked: an explicitly passed value (none included) is bound as it is, the default is used and evaluated iff the parameter is bound to undefined, one more positional value = the same value by keyword for the next free parameter, every keyword is consumed by a parameter that is not filled by position or is an error, the error cases exactly, and the model VM's prepareArgs is this binder; the engine's binder is compared with it on an exhaustive box (incl. splats in three forms, calls from Rust and macros called BY A CALL BLOCK with literal = static and variable = dynamic keyword arguments); kernel-checked: the constant keyword bundle of the static fast path of compile_call_args and the bundle BuildKwargs builds on the slow path hold the same value under every name (static_kwargs_eq_dynamic). Auto-escaping (the safe mark of captures) has no value model of its own; it is checked through two absolute modes (esc-ident: AutoEscape::Custom + identity formatter; esc-off: {% autoescape false %} in an HTML-escaping environment — both must render what the reference semantics renders) and through NEUTRAL TWINS under HTML / JSON escaping, {% autoescape true %} and a formatter that brackets safe values: a program and its twin (do-nothing statements inserted, bodies wrapped in {% if true %}, template data split, a run of statements captured by a set-block / macro / call block and printed) must render alike; the do-nothing rewrites are kernel-checked laws of the reference semantics (twin_if_false, twin_if_empty, twin_for_empty, twin_if_true, twin_text_split, twin_block_noop) and the Lean driver renders every pair (a pair that differs in the reference semantics is reported as broken, not as a failure). A box of fast-path body shapes (every construct with a body x empty / data-only / single literal / single variable / data+expression / single nested construct / single assignment bodies x 8 observations) runs as plain cases, under all six modes and through the discarding entry forms.",
     "design_ref": "DESIGN.md §3 C03",
     "level_note": "Stage reached: " + STAGE + ". Trusted: Lean kernel; the reading of syntax.rs in MJ/Model/Eval.lean; hand transcription of codegen.rs / vm/mod.rs in MJ/Model/{Compile,Vm}.lean (validated on every generated program: instruction streams identical, VM results identical); harness unparse + serde AST dump (checked by AST equality on every case). Not proved: " + EXCLUDED + " are modelled in Eval / Compile / both model VMs and compared on every generated program (instruction streams, results) but are outside the fragment of the refinement theorem (wfBlock in MJ/Proofs/Scoping.lean is the decidable description; the share of generated programs inside it is reported as in_theorem_percentage, the reasons for the rest in the proved_fragment histogram). The theorem assumes a render context of plain data (undefined, none, booleans, integers, strings, lists, maps); kernel-checked with it: the values that flow through expressions of the fragment stay plain data, so a positional argument is never taken for the keyword bundle. The entry forms other than `render` are run against `renderAfter` (run P discarding its output, then the tail in the same top-level scope); vm_refines_eval_discard proves the model VM's discarding run for the proved fragment, the multi-template machinery itself (LoadBlocks, Include, ExportLocals, module objects) is validated by the differential runs only.",
 }
